@@ -16,6 +16,7 @@
 From stdpp Require Import gmap list.
 From Coq Require Import NArith.
 From BS Require Import Abs.Assets Abs.AssetsProofs.
+From BS Require Abs.Downloads Abs.DownloadsProofs.
 Local Open Scope N_scope.
 
 (* the general form: the publisher changes only at quiescent states (the SAME peer may publish and
@@ -120,6 +121,46 @@ Theorem C06_concurrent_publishers_may_disagree :
     pstore s' 0 = Some 20 /\ pstore s' 1 = Some 20 /\ pstore s' 2 = Some 10.
 Proof. exact AssetsProofs.concurrent_publishers_disagree. Qed.
 
+(* "every timing of the asynchronous HTTP download relative to frames and to further operations":
+   the registry of pending downloads of ONE asset on ONE receiving peer (Abs/Downloads.v: requests
+   are numbered, a download fetches whatever version the publisher's cache holds when its response
+   is built, downloads arrive in ANY order, a download that arrives after a download of a later
+   request is dropped, the registry entry is forgotten and re-created). Tie: the instrumented
+   registry logs every step in lock order and the extracted model must take the same decisions
+   (ocaml/drv_absdl.ml). For every interleaving of publications, requests, fetches, arrivals, thread
+   ends and applications, without failed downloads: once nothing is on its way the peer holds the
+   publisher's latest version *)
+Theorem C06_downloads_any_order :
+  forall tr s, Downloads.no_fail tr -> Downloads.drun true Downloads.dinit tr = Some s ->
+    Downloads.dquiet s -> (Downloads.version s > 0)%nat ->
+    Downloads.applied s = Some (Downloads.version s).
+Proof. exact DownloadsProofs.downloads_converge. Qed.
+
+(* the code before the repair f2a0ca4 (defect S31: every arrival was kept): a large first version
+   overtaken by a small second one arrives last and stays *)
+Theorem C06_downloads_unnumbered_refuted :
+  exists tr s, Downloads.no_fail tr /\ Downloads.drun false Downloads.dinit tr = Some s /\ Downloads.dquiet s /\
+    (Downloads.version s > 0)%nat /\ Downloads.applied s <> Some (Downloads.version s).
+Proof. exact DownloadsProofs.downloads_unnumbered_refuted. Qed.
+
+(* at every point of every run (failed downloads included): an entry exists while a download is under
+   way, its counters are consistent, and what waits or is applied is a version that was published *)
+Theorem C06_downloads_registry_safe :
+  forall tr s, Downloads.drun true Downloads.dinit tr = Some s ->
+    (Downloads.flights s <> [] -> Downloads.present s = true) /\
+    (Downloads.arrived s <= Downloads.requested s)%nat /\
+    (Downloads.present s = false -> Downloads.requested s = 0%nat /\ Downloads.arrived s = 0%nat) /\
+    (forall v, Downloads.applied s = Some v -> (1 <= v <= Downloads.version s)%nat) /\
+    (forall v, Downloads.slot s = Some v -> (1 <= v <= Downloads.version s)%nat).
+Proof. exact DownloadsProofs.downloads_safe. Qed.
+
+(* and every run can be completed to a state in which nothing is on its way *)
+Theorem C06_downloads_can_complete :
+  forall tr s, Downloads.drun true Downloads.dinit tr = Some s ->
+    exists tr' s', Downloads.drun true s tr' = Some s' /\ Downloads.dquiet s' /\
+      Downloads.version s' = Downloads.version s /\ (Downloads.no_fail tr -> Downloads.no_fail tr').
+Proof. exact DownloadsProofs.downloads_complete. Qed.
+
 Print Assumptions C06_publishers_hand_over_at_quiescence.
 Print Assumptions C06_single_publisher.
 Print Assumptions C06_drain_separated.
@@ -133,3 +174,7 @@ Print Assumptions C06_materials_no_echo.
 Print Assumptions C06_materials_traffic_bound.
 Print Assumptions C06_join_cost.
 Print Assumptions C06_concurrent_publishers_may_disagree.
+Print Assumptions C06_downloads_any_order.
+Print Assumptions C06_downloads_unnumbered_refuted.
+Print Assumptions C06_downloads_registry_safe.
+Print Assumptions C06_downloads_can_complete.
